@@ -348,4 +348,101 @@ theorem clientRead_no_panic (enc : Bool) (P : Prims) (key data : Bytes) :
   · split at h <;> cases h
   · exact route_no_panic P key data site h
 
+/-! ## the result contract, and inconsistent lengths at every size (session 9) -/
+
+/-- **Result contract of `DeserializeEncrypted`** ("refused with an error" / "yields a message", nothing in between):
+for every key and EVERY byte string of any length the call either returns an error, or returns a message `m`
+together with the facts that make it usable — the packet is the specification's sealing of exactly `m`, `m`'s fields
+fit the wire, its msg_id has server parity. There is no third outcome (no panic, no "no error and no message": the
+seeded change C04-m15 returned `(nil, nil)` from a size guard; in Go that third outcome exists, and the harness
+reports it as `ok-without-message`). -/
+theorem openClient_result_contract {P : Prims} (hP : P.Ok) (key data : Bytes) :
+    (∃ e, openClient P key data = .err e) ∨
+    (∃ m pad, openClient P key data = .ok m ∧ data = Spec.serverSeal P key m pad ∧ m.WF ∧ serverParity m.mid) := by
+  cases hres : openClient P key data with
+  | err e => exact Or.inl ⟨e, rfl⟩
+  | panic s =>
+    have := openClient_no_panic P key data
+    rw [hres] at this; cases this
+  | ok m =>
+    obtain ⟨pad, h1, _, h3, h4⟩ := accepted_is_a_sealing hP key data m hres
+    exact Or.inr ⟨m, pad, rfl, h1, h3, h4⟩
+
+example : (∃ e, openClient toyPrims (zeros 256) (zeros 100) = .err e) ∨
+    (∃ m pad, openClient toyPrims (zeros 256) (zeros 100) = .ok m ∧ zeros 100 = Spec.serverSeal toyPrims (zeros 256) m pad ∧
+      m.WF ∧ serverParity m.mid) := openClient_result_contract toyPrims_ok _ _
+
+/-- **Result contract of `transport.ReadMsg`**: whatever the framing layer delivers, the call returns a transport
+error code, an error, an encrypted message that `DeserializeEncrypted` returned for this very packet under the
+session's key, or an unencrypted message that `DeserializeUnencrypted` returned for it — never a panic and never a
+success that is not backed by a deserialiser's message. -/
+theorem route_result_contract (P : Prims) (key data : Bytes) :
+    (∃ c, route P key data = .code c) ∨ (∃ e, route P key data = .err e) ∨
+    (∃ m, route P key data = .enc m ∧ openClient P key data = .ok m) ∨
+    (∃ mid body, route P key data = .unenc mid body ∧ Unenc.deserialize data = .ok (mid, body)) := by
+  cases hres : route P key data with
+  | code c => exact Or.inl ⟨c, rfl⟩
+  | err e => exact Or.inr (Or.inl ⟨e, rfl⟩)
+  | panic s => exact absurd hres (route_no_panic P key data s)
+  | enc m =>
+    refine Or.inr (Or.inr (Or.inl ⟨m, rfl, ?_⟩))
+    unfold route at hres
+    split at hres
+    · cases hres
+    · split at hres
+      · split at hres
+        · cases hres
+        · cases hres
+        · rename_i m' hm'
+          split at hres
+          · cases hres
+          · cases hres; exact hm'
+      · split at hres
+        · cases hres
+        · cases hres
+        · split at hres <;> cases hres
+  | unenc mid body =>
+    refine Or.inr (Or.inr (Or.inr ⟨mid, body, rfl, ?_⟩))
+    unfold route at hres
+    split at hres
+    · cases hres
+    · split at hres
+      · split at hres
+        · cases hres
+        · cases hres
+        · split at hres <;> cases hres
+      · split at hres
+        · cases hres
+        · cases hres
+        · rename_i mid' body' hd
+          split at hres
+          · cases hres
+          · cases hres; exact hd
+
+example := route_result_contract toyPrims (zeros 256) (Unenc.serialize 5 [1, 2, 3])
+
+/-- Clause "declares an inconsistent (negative, oversized) length is refused with an error", for EVERY total packet
+length (no bound on `data.length`: 56 bytes or 2^24 + 2^20 or more) and every key: when the length field of the
+decrypted inner header — `plain[28:32]` as a signed 32-bit number, `plain` the IGE decryption of `data[24:]` under
+the key/IV of `data[8:24]` — is negative or larger than `|plain| − 32`, `DeserializeEncrypted` returns an error. -/
+theorem openClient_refuses_inconsistent_length {P : Prims} (hP : P.Ok) (key data : Bytes)
+    (h : toSigned 32 (fromLE (Spec.substr (P.igeD (Spec.keyIv P 8 key (Spec.substr data 8 16)).1
+            (Spec.keyIv P 8 key (Spec.substr data 8 16)).2 (data.drop 24)) 28 4)) < 0 ∨
+         ((P.igeD (Spec.keyIv P 8 key (Spec.substr data 8 16)).1
+            (Spec.keyIv P 8 key (Spec.substr data 8 16)).2 (data.drop 24)).length : Int) - 32 <
+          toSigned 32 (fromLE (Spec.substr (P.igeD (Spec.keyIv P 8 key (Spec.substr data 8 16)).1
+            (Spec.keyIv P 8 key (Spec.substr data 8 16)).2 (data.drop 24)) 28 4))) :
+    ∃ e, openClient P key data = .err e := by
+  cases hres : openClient P key data with
+  | err e => exact ⟨e, rfl⟩
+  | panic s =>
+    have := openClient_no_panic P key data
+    rw [hres] at this; cases this
+  | ok m =>
+    exfalso
+    obtain ⟨_, plain, hpl, hdecl, hin, _⟩ := openClient_sound hP key data m hres
+    rw [← hpl] at h
+    rw [hdecl] at h
+    omega
+
 end Mtv.Envelope
